@@ -736,6 +736,8 @@ class Interp:
             return fr.locals[e.id]
         if e.id.startswith("ghost_") and e.id in self.ctx.ghost:
             return self.ctx.ghost[e.id]
+        if e.id == "MAX_BLOCKFILE_SIZE" and "fs_limit" in self.ctx.ghost:
+            return self.ctx.ghost["fs_limit"]      # module attribute set by the replay harness (spec.fs.run_write)
         if e.id in fr.globals:
             return fr.globals[e.id]
         if hasattr(builtins, e.id):
@@ -781,7 +783,7 @@ class Interp:
             else:
                 try:
                     v = self.eval(p.value, fr)
-                except (PyRaise, Unsupported):
+                except Unsupported:
                     return VOpaque()
                 if isinstance(v, VInt) and p.format_spec is None and p.conversion == -1:
                     vals = self.enumerate_int(v, 40)
@@ -988,6 +990,9 @@ class Interp:
             if getattr(f, "__module__", "") == "spec.p2p" and f.__name__ == "node_iteration":
                 from . import ghosts
                 return ghosts.node_iteration(self, args, kwargs, node)
+            if getattr(f, "__module__", "") == "spec.fs" and f.__name__ == "run_write":
+                from . import ghosts
+                return ghosts.fs_run_write(self, args, kwargs, node)
             if self.repo.is_repo_function(f):
                 if f.__name__ == "recv_msg" and "node_inbox" in self.ctx.ghost:
                     from . import ghosts
